@@ -155,6 +155,11 @@ func fedL1Universe(r *rand.Rand) *fedUniverse {
 	u.Nodes[root].Fields["topProducts"] = fvL(refs(products)...)
 	all := append(append(refs(products), refs(users)...), refs(reviews)...)
 	u.Nodes[root].Fields["search"] = fvL(all...)
+	// (the mutation fields of layout L1M, selected by their key argument; never selected under L1)
+	u.Nodes[root].Fields["setPrice"] = fvL(refs(products)...)
+	u.Nodes[root].Fields["touchProduct"] = fvL(refs(products)...)
+	u.Nodes[root].Fields["renameUser"] = fvL(refs(users)...)
+	u.Nodes[root].Fields["addReview"] = fvL(refs(reviews)...)
 	return u
 }
 
